@@ -19,11 +19,12 @@ Definition set_attr_offline (id n : string) (v : val) (m : master) : master :=
   set_ports m (upd_port id (set_attr_offline_port n v) (m_ports m)).
 
 (* SlavePort.write_value, offline branch *)
-Definition write_value_offline_port (v : val) (p : mport) : mport :=
-  with_cached_value (with_prov p (set_add "value" (mp_prov p))) v.
+Definition write_value_offline_port (c : cfg) (v : val) (p : mport) : mport :=
+  let p1 := if offline_write_clears_queue c then with_queue p [] else p in
+  with_cached_value (with_prov p1 (set_add "value" (mp_prov p1))) v.
 
-Definition write_value_offline (id : string) (v : val) (m : master) : master :=
-  set_ports m (upd_port id (write_value_offline_port v) (m_ports m)).
+Definition write_value_offline (c : cfg) (id : string) (v : val) (m : master) : master :=
+  set_ports m (upd_port id (write_value_offline_port c v) (m_ports m)).
 
 (* Slave.intercept_request('PATCH', '/device', params) while offline *)
 Definition patch_device_offline (params : attrs) (m : master) : master :=
@@ -146,7 +147,7 @@ Inductive ostep :=
 Definition ostep_run (c : cfg) (m : master) (s : ostep) : master :=
   match s with
   | OSetAttr id n v => set_attr_offline id n v m
-  | OWriteValue id v => write_value_offline id v m
+  | OWriteValue id v => write_value_offline c id v m
   | OPatchDevice ps => patch_device_offline ps m
   | ORemote e => fst (handle c e m)
   | OTick => tick m
